@@ -4,8 +4,7 @@ Only property statements live here; every proof is a reference to a lemma of Cod
 SimpleLemmas / VarsLemmas / Lemmas / JsonLemmas, so a statement cannot be weakened quietly.
 
 Not proved (tied by the correspondence run and decided by the direct oracle only): the indented
-text layouts of SimpleMRS/Indexed MRS/MRX, the Indexed MRS lexer, the MRX and JSON text level
-(library parameters), the decoded property maps of Indexed MRS.
+text layouts of Indexed MRS and MRX, the MRX and JSON text level (library parameters).
 -/
 import Verif.Common.CodecLemmas
 import Verif.C01.Lemmas
@@ -14,6 +13,9 @@ import Verif.C01.SimpleLemmas
 import Verif.C01.StableLemmas
 import Verif.C01.MrxLemmas
 import Verif.C01.IxLemmas
+import Verif.C01.IxPropsLemmas
+import Verif.C01.IxLexLemmas
+import Verif.C01.LayoutLemmas
 import Verif.C01.LexToksLemmas
 import Verif.C01.LexLemmas
 
@@ -120,6 +122,21 @@ theorem simplemrs_text_roundtrip (o : Opts) (m : MRS) (h : Lex.LexExprS m) (he :
   simp only [List.append_nil] at this
   simp [this]
 
+/-- "for every indentation setting" (SimpleMRS, indent=True): the model of the regex lexer reads the
+indented text (`renderInd`, compared with the real `encode(indent=True)` on every generated case)
+back as the token list of the encoder. -/
+theorem simplemrs_lex_indented (o : Opts) (m : MRS) (h : Lex.LexExprS m) :
+    Lex.lex (Lex.renderInd o m) = some (toks o m) := Lex.lex_renderInd o m h
+
+/-- text level, indented layout: lexing the indented text and running the decoder gives the decoded
+structure. -/
+theorem simplemrs_text_roundtrip_indented (o : Opts) (m : MRS) (h : Lex.LexExprS m) (he : ExprS m) :
+    (Lex.lex (Lex.renderInd o m)).map parse = some (.ok (decodedS o m, [])) := by
+  rw [simplemrs_lex_indented o m h]
+  have := parse_toks o m [] he
+  simp only [List.append_nil] at this
+  simp [this]
+
 /-- sorting by `property_priority` is idempotent (used for "encoding that result again reproduces
 the text exactly": the re-encoder sorts an already sorted property list). -/
 theorem sortProps_stable (ps : Props) : sortProps (sortProps ps) = sortProps ps := sortProps_idem ps
@@ -138,11 +155,63 @@ theorem mrx_roundtrip (o : Opts) (m : MRS) (h : ExprX m) : ofXml (toXml o m) = s
 
 /-! ## Indexed MRS, token level, relative to a SEM-I that covers the structure -/
 
--- FULL STATEMENT (not proved): for a covering SEM-I, also with property lists written, the decoded
--- `variables` equal the original ones up to the case of the values.  Proved: the structure part with
--- property lists (`indexed_roundtrip_props`, the decoded variables given as `matchAll` of the
--- first-mention assignments); missing: that `matchAll` succeeds and returns the original maps (needs
--- reflexivity/subsumption facts of the SEM-I's property hierarchy on the written values).
+/-- "… and Indexed MRS relative to a SEM-I that covers the structure, where property values compare
+case-insensitively": the decoder run on the encoder's tokens followed by any further tokens returns
+a structure with the same top, index, handle and individual constraints, every EP with its arguments
+in synopsis order and the constant last (`epViewI`; the same arguments as a map:
+`indexed_same_arguments`), alignment only when `o.lnk`, and `variables` mapping every variable of the
+structure to `propsViewI`: the SEM-I's property names with the written (upper-cased) values when
+properties are on and the variable is written at the index or as an argument, the empty map
+otherwise.  Hypotheses on the SEM-I, both explicit: `CoverEP` per EP (synopsis lookup) and the
+DECIDABLE `propsCover` (every variable with properties is a valid variable whose sort has a
+non-empty property list with distinct names, and each written value, upper-cased, is subsumed in the
+property hierarchy by the value the SEM-I declares) — these are exactly the facts
+`_prepare_variable_properties`/`_match_properties` use. -/
+theorem indexed_roundtrip (semi : Ix.SemI) (o : Opts) (m : MRS) (ts rest : List Ix.TI)
+    (htop : m.top.isSome = true) (hc : ∀ e ∈ m.rels, Ix.CoverEP semi e)
+    (hp : Ix.propsCover semi m = true) (hn : (m.vars.map (·.1)).Nodup)
+    (ht : Ix.toksIx semi o m = .ok ts) :
+    ∃ d, Ix.parseIx semi (ts ++ rest) = .ok (d, rest)
+      ∧ d.top = m.top ∧ d.index = m.index ∧ d.rels = m.rels.map (Ix.epViewI semi o)
+      ∧ d.hcons = m.hcons ∧ d.icons = m.icons ∧ d.lnk = .unspec ∧ d.surface = none ∧ d.ident = none
+      ∧ ∀ v, v ∈ fillOrder m.top m.index (m.rels.map (Ix.epViewI semi o)) m.hcons m.icons →
+          dget d.vars v = some (Ix.propsViewI semi o m v) :=
+  Ix.parseIx_toksIx semi o m ts rest htop hc hp hn ht
+
+/-- Indexed MRS, character level: the model of `_IndexedMRSLexer` (the twelve classes pinned in
+`c01_pins_indexedmrs`) reads back the un-indented text of the encoder's token list, for every MRS
+whose atoms are lexically expressible relative to the SEM-I and the options (`LexExprI`). -/
+theorem indexed_lex_render (semi : Ix.SemI) (o : Opts) (m : MRS) (ts : List Ix.TI)
+    (h : IxLex.LexExprI semi o m) (ht : Ix.toksIx semi o m = .ok ts) :
+    IxLex.lexIx (IxLex.renderIx ts) = some ts := IxLex.lexIx_toksIx semi o m ts h ht
+
+/-- Indexed MRS, text level (un-indented layout): lexing the encoder's text and running the decoder
+gives a structure with the same top, index, EPs (`epViewI`), constraints and the property maps
+`propsViewI`. -/
+theorem indexed_text_roundtrip (semi : Ix.SemI) (o : Opts) (m : MRS) (ts : List Ix.TI)
+    (hl : IxLex.LexExprI semi o m) (htop : m.top.isSome = true) (hc : ∀ e ∈ m.rels, Ix.CoverEP semi e)
+    (hp : Ix.propsCover semi m = true) (hn : (m.vars.map (·.1)).Nodup)
+    (ht : Ix.toksIx semi o m = .ok ts) :
+    ∃ d, (IxLex.lexIx (IxLex.renderIx ts)).map (Ix.parseIx semi) = some (.ok (d, []))
+      ∧ d.top = m.top ∧ d.index = m.index ∧ d.rels = m.rels.map (Ix.epViewI semi o)
+      ∧ d.hcons = m.hcons ∧ d.icons = m.icons
+      ∧ ∀ v, v ∈ fillOrder m.top m.index (m.rels.map (Ix.epViewI semi o)) m.hcons m.icons →
+          dget d.vars v = some (Ix.propsViewI semi o m v) := by
+  obtain ⟨d, hd, h1, h2, h3, h4, h5, _, _, _, h9⟩ := indexed_roundtrip semi o m ts [] htop hc hp hn ht
+  refine ⟨d, ?_, h1, h2, h3, h4, h5, h9⟩
+  rw [indexed_lex_render semi o m ts hl ht]
+  simp only [List.append_nil] at hd
+  simp [hd]
+
+/-- "property values compare case-insensitively": when the variable carries the full property list
+of its sort, the map that comes back has exactly its properties with upper-cased values. -/
+theorem indexed_same_properties (semi : Ix.SemI) (o : Opts) (m : MRS) (v : Str) (ps : Props)
+    (sps : List (Str × Str)) (ho : o.properties = true) (hw : v ∈ Ix.writtenVars semi m)
+    (hps : dget m.vars v = some ps) (hne : ps ≠ []) (hs : dget semi.vprops (varSort v) = some sps)
+    (hnd : (sps.map (·.1)).Nodup) (hfull : ∀ K, (dget ps K).isSome = true ↔ K ∈ sps.map (·.1)) :
+    ∀ K, dget (Ix.propsViewI semi o m v) K = (dget ps K).map upper :=
+  Ix.propsViewI_same semi o m v ps sps ho hw hps hne hs hnd hfull
+
 /-- "… and Indexed MRS relative to a SEM-I that covers the structure": when no property list is
 written (properties off, or no variable has properties) the decoder run on the encoder's tokens
 followed by any further tokens returns top, index, handle and individual constraints unchanged and
@@ -277,8 +346,8 @@ theorem c01_pins_simplemrs :
       [] := by
   refine ⟨?_, ?_, ?_, ?_, ?_, ?_, ?_, ?_, ?_, ?_, ?_, ?_, ?_, ?_, ?_, ?_, ?_, ?_, ?_, ?_, ?_, ?_, ?_, ?_⟩ <;> rfl
 
-/-- PINS, delphin/codecs/indexedmrs.py.  `_IndexedMRSLexer.tokens` in order is what `Ix.KI` names (the Indexed
-lexer itself is not modelled: the harness feeds the real lexer's tokens); the constants and names of
+/-- PINS, delphin/codecs/indexedmrs.py.  `_IndexedMRSLexer.tokens` in order is what `Ix.KI` names and what
+`IxLex.stepI` (IxLexer.lean: `mLnkI`, `scanDQ`, `symOkI`) hand-codes class by class; the constants and names of
 `_decode_indexed`, `_decode_proplist`, `_decode_rels`, `_decode_rel`, `_find_synopsis`, `_decode_arglist`,
 `_decode_cons`, `_match_properties` are mirrored by `Ix.parseIx`, `parsePropList`, `parseRelLoop`, `parseRelI`,
 `findDec`, `parseArgList`, `parseConsI`, `matchProps`; those of `_encode_indexed` (the un-indented format strings),
